@@ -27,8 +27,8 @@ from symx import Violation
 from symx.obligation import Obligation
 
 OPS = ["<", "<=", ">", ">=", "=", "==", "!="]
-DOMAIN = {"quick": (9, 3), "thorough": tuple(int(x) for x in __import__("os").environ.get("C21_TD", "17,6").split(","))}          # values n * 10**-E with |n| < 10**DIGITS
-Z3_TIMEOUT_MS = {"quick": 20000, "thorough": 120000}
+DOMAIN = {"quick": (9, 3), "thorough": tuple(int(x) for x in __import__("os").environ.get("C21_TD", "13,4").split(","))}          # values n * 10**-E with |n| < 10**DIGITS
+Z3_TIMEOUT_MS = {"quick": 20000, "thorough": 60000}
 MAX_PATHS = 16
 
 
@@ -713,6 +713,23 @@ def run_decimal(shard, tier):
                 emit(cls, kind, na, nb, f"compare_values(op, {_fmt(na, E)!r}, {ua!r}, {_fmt(nb, E)!r}, {ub!r}): {describe(na, nb)}  [{label}; {cls}]")
         return out
 
+    # concrete pre-screen on the boundary seeds (0/0, equal quantities, neighbours): the real function decides; keeps the
+    # set of reported signatures independent of solver time-outs on the expensive (Fahrenheit) pairs
+    from fractions import Fraction as _F
+    for na, nb in dict.fromkeys(seeds):
+        res = {op: _real(op, ua, ub, _fmt(na, E), _fmt(nb, E)) for op in OPS}
+        t["decisions"] += 1
+        truth, cls = None, "nomodel"
+        if ex is not None:
+            (fa_, oa_), (fb_, ob_) = ex
+            Lc, Rc = fa_ * _F(na, 10 ** E) + oa_, fb_ * _F(nb, 10 ** E) + ob_
+            truth = {"<": Lc < Rc, "=": Lc == Rc, ">": Lc > Rc}
+            cls = "rounding" if abs(Lc - Rc) * CLOSE <= abs(Lc) + abs(Rc) else "gross"
+        for kind in ("raises", "trichotomy", "ne-vs-eq", "eqeq-vs-eq", "le-vs-lt-or-eq", "ge-vs-gt-or-eq", "inexact"):
+            if _kind_holds(kind, res, truth):
+                emit("any" if kind == "raises" else cls, kind, na, nb,
+                     f"compare_values(op, {_fmt(na, E)!r}, {ua!r}, {_fmt(nb, E)!r}, {ub!r}): " + ", ".join(f"{k}:{v}" for k, v in res.items()) + "  [seed screen]")
+
     # a comparison the module declares possible must not raise
     raising = [(op, c, o) for op in OPS for c, o in pm.raising(op)]
     for op, c, o in raising:
@@ -978,18 +995,19 @@ OBLIGATIONS = [
         encoded=["openpectus.lang.exec.units:compare_values", "openpectus.lang.exec.units:as_decimal"],
         symbolic="the two operand values: integers a, b with value = n * 10^-E (z3 Int), all seven operators",
         bounds={"quick": "values with up to 6 integer and 3 fractional digits (|n| < 10^9, E = 3); per quantity the pairs (first unit, other unit) + 5 extra pairs + 4 same-unit pairs + unit-less; pairs converting to/from Fahrenheit only in the thorough tier",
-                "thorough": "values with up to 11 integer and 6 fractional digits (|n| < 10^17, E = 6); every ordered comparable pair, every same-unit pair, unit-less"},
+                "thorough": "values with up to 9 integer and 4 fractional digits (|n| < 10^13, E = 4); every ordered comparable pair, every same-unit pair, unit-less"},
         assumptions=["Decimal arithmetic = exact result rounded half-even to the context precision (28): encoded in integer arithmetic; every recorded operand of every concrete run is recomputed through the encoding and compared with the real Decimal",
                      "programs are extracted by running the real compare_values / pint with an instrumented Decimal subclass (as_decimal returns the instrumented value); path enumeration is driven by z3 until the domain is covered",
                      "exact quantities: pint registry of the same class instantiated with Fraction arithmetic + the unit definitions the repo added, copied from the live registry objects",
-                     "value strings are plain positional decimals inside the domain; NaN / Infinity / exponents outside the domain are not covered"]),
+                     "value strings are plain positional decimals inside the domain; NaN / Infinity / exponents outside the domain are not covered",
+                     "in addition the boundary seeds (0/0, pairs of equal physical quantity and their neighbours) are screened concretely on the real function; pairs converting to/from Fahrenheit divide by a 28-digit constant and may time out (reported as inconclusive)"]),
 ]
 
 
 LEVEL = "model_checking"
 MANIFEST = {
     "level": "model_checking",
-    "text": "(i) exhaustive table of are_comparable / get_compatible_unit_names over all ordered pairs of supported units; (ii) bounded symbolic execution (CrossHair) of compare_values' own control flow with exact rational quantities: all seven operators on the same symbolic operands are mutually consistent and equal to the rational comparison; (iii) the Decimal programs pint really executes are extracted by concolic execution of the real compare_values with an instrumented Decimal, encoded in z3 integer arithmetic with explicit round-half-even at the context precision, and z3 decides for all values with up to 6+3 (quick) / 11+6 (thorough) digits: trichotomy, '!=' = not '=', '<=' / '>=' = strict or equal, '==' = '=', agreement of <, =, > with the exact rational quantities, and that no violation exists beyond rounding distance.",
-    "note": "Bounded: value domain n*10^-E with |n| < 10^9 (quick) / 10^17 (thorough); quick covers one pair per (first unit, other unit) of each quantity, thorough all ordered comparable pairs. Trusted: z3, the Decimal encoder (every recorded operand of every concrete run is recomputed through the encoding and compared with the real Decimal; results compared with the un-instrumented compare_values on witnesses, the repo's test inputs and boundary values), the Fraction instantiation of the registry as ground truth. Rounding-level findings are keyed per quantity, anything else per unit pair.",
+    "text": "(i) exhaustive table of are_comparable / get_compatible_unit_names over all ordered pairs of supported units; (ii) bounded symbolic execution (CrossHair) of compare_values' own control flow with exact rational quantities: all seven operators on the same symbolic operands are mutually consistent and equal to the rational comparison; (iii) the Decimal programs pint really executes are extracted by concolic execution of the real compare_values with an instrumented Decimal, encoded in z3 integer arithmetic with explicit round-half-even at the context precision, and z3 decides for all values with up to 6+3 (quick) / 9+4 (thorough) digits: trichotomy, '!=' = not '=', '<=' / '>=' = strict or equal, '==' = '=', agreement of <, =, > with the exact rational quantities, and that no violation exists beyond rounding distance.",
+    "note": "Bounded: value domain n*10^-E with |n| < 10^9 (quick) / 10^13 (thorough); quick covers one pair per (first unit, other unit) of each quantity, thorough all ordered comparable pairs. Trusted: z3, the Decimal encoder (every recorded operand of every concrete run is recomputed through the encoding and compared with the real Decimal; results compared with the un-instrumented compare_values on witnesses, the repo's test inputs and boundary values), the Fraction instantiation of the registry as ground truth. Rounding-level findings are keyed per quantity, anything else per unit pair.",
     "technique": "finite table + symbolic execution of the real code (CrossHair) + solver-driven concolic extraction of pint's Decimal arithmetic with z3 integer queries; witnesses replayed on the real compare_values",
 }
